@@ -137,3 +137,15 @@ Example ex_dup : snd (add_group [72] [mkOpt s_nut 0] ex_ctx) = Some s_nut /\ snd
   snd (add_alias s_num 1 ex_ctx) = Some s_num /\ snd (add_group [72] [mkOpt s_num 122] ex_ctx) = Some s_num /\
   index (fst (add_group [72] [mkOpt s_num 122] ex_ctx)) = index ex_ctx.
 Proof. vm_compute. repeat split; reflexivity. Qed.
+
+(* ---- the boundary of the domain (why the hypotheses are there) ---- *)
+(* bytes >= CHAR_MAX behind the key fall outside [k, k.CHAR_MAX]: the option "caf\xe9" is not found by its prefix "caf" *)
+Example c14_highbyte_outside_domain :
+  let c := fst (add_group [] [mkOpt [99;97;102;233] 0] empty_ctx) in
+  matches c [] find_prefix [99;97;102] = [0%nat] /\ find [99;97;102] find_prefix c = Unknown.
+Proof. vm_compute. split; reflexivity. Qed.
+(* a long name that starts with '-' is indistinguishable from an alias key: "-x" is found by alias lookup of 'x' *)
+Example c14_dash_name_outside_domain :
+  let c := fst (add_group [] [mkOpt [45;120] 0] empty_ctx) in
+  matches c [] find_alias [120] = [] /\ find [120] find_alias c = Found 0.
+Proof. vm_compute. split; reflexivity. Qed.
